@@ -60,7 +60,7 @@ Example refusal_premises_met :
 Proof. split; [reflexivity|]. split; [cbn; tauto|reflexivity]. Qed.
 
 (* The refusal clause does NOT extend to functions outside the grammar whose name happens to be an entry of
-   the dialect table: an applied undefined function called "cos" is translated to the cosine (finding C19-N1). *)
+   the dialect table: an applied undefined function called "cos" is translated to the cosine (finding F30). *)
 Theorem unsupported_refused_name_collision_refuted :
   exists e, supported e = false /\
     exists t, from_sympy round53 e = Ok t /\
